@@ -122,9 +122,9 @@ def replay_streams(rp):
 # ------------------------------------------------------------------------------------------ derived CborLen (C07)
 
 C07_DERIVED_MODULES = ["Minicbor.Thm.C07Derive"]
-C07_DERIVED_REQUIRED = ["Minicbor.C07Derive." + n for n in """len_exact fields_len vars_len len_exact_derived_partial lenFrame_exact
-lenArray_exact lenMap_exact len_derived_counterexample_K3 len_exact_derived_statement_false len_derived_K2_repaired
-len_derived_KD1_repaired noLenGap_example""".split()]
+C07_DERIVED_REQUIRED = ["Minicbor.C07Derive." + n for n in """len_exact fields_len vars_len len_exact_derived len_exact_derived_statement_holds lenFrame_exact
+lenArray_exact lenMap_exact len_derived_K3_repaired len_derived_K3_repaired2 len_derived_K2_repaired
+len_derived_KD1_repaired""".split()]
 
 
 def bodies(ty, v):
@@ -156,7 +156,9 @@ def idxlen_i32(i):
 
 
 def len_classes(ty, v):
-    """which recorded CborLen defects this value can trigger (K2 and KD1 were repaired in /repo: d85a3d2, 36d21e9)."""
+    """which recorded CborLen defects this value can trigger: none any more (K2, KD1 and K3 were repaired in /repo:
+    d85a3d2, 36d21e9, 0196d88); kept as the coverage classifier of the former K3 shape (a tagged nil field below the
+    highest present index in an array-encoded body)."""
     cls = set()
     for b in bodies(ty, v):
         if b[0] == "variant":
@@ -166,13 +168,11 @@ def len_classes(ty, v):
         present = [(f, x) for f, x in live if not dg.absent(f, x)]
         if enc == "a" and present:
             m = max(f.idx for f, _ in present)
-            if any(f.tag is not None and dg.absent(f, x) and f.idx < m for f, x in live): cls.add("K3")
+            if any(f.tag is not None and dg.absent(f, x) and f.idx < m for f, x in live): cls.add("k3shape")
     return cls
 
 
 def make_len_judge(rows):
-    meta = {r[0]: (r[4], r[5]) for r in rows}
-
     def judge(op, impl, model, spec):
         iw = impl.split(" ")
         if len(iw) != 2:
@@ -181,14 +181,7 @@ def make_len_judge(rows):
         nbytes = 0 if hexs == "-" else len(hexs) // 2
         if int(ln) == nbytes:
             return "ok" if impl == model else "corr"
-        # the derived length differs from the number of bytes written
-        if impl != model:
-            return "violation"
-        ty, v = meta.get(op, (None, None))
-        cls = len_classes(ty, v) if ty is not None else set()
-        for k in ("K3",):
-            if k in cls:
-                return ("known", k)
+        # the derived length differs from the number of bytes written: a failing input, whatever the model says
         return "violation"
     return judge
 
